@@ -153,15 +153,20 @@ def judge_model(d):
                     if not np.allclose(res2.shift, res.shift, atol=1e-4) or not abs(float(res2.score) - float(res.score)) <= 1e-4 * max(1, abs(float(res.score))):
                         out.append(viol("C06/permutation-changes-result", f"{tag}: shift/score changed under permutation: "
                                         f"{np.round(res2.shift, 3).tolist()}/{float(res2.score):.5g} vs {np.round(res.shift, 3).tolist()}/{float(res.score):.5g}"))
-    # fit (T = 1)
-    if T == 1 and d["fit"]:
+    # fit: the same search driven through Model.fit (one or several templates)
+    if d["fit"] and not (unequal and d["model"] == "PCC"):
         with warnings.catch_warnings():
             warnings.simplefilter("ignore")
             kw = {} if arg is None else {"rotations": arg}
-            fitted, rf = Model(templates[0], mask, **kw).fit(sub, ms)
+            fitted, rf = Model(templates[0] if T == 1 else list(templates), mask, **kw).fit(sub, ms)
         e3 = planted.angle(Rotation.from_quat(np.asarray(rf.quat, dtype=np.float64)), cands[k])
         if not e3 <= 1e-6:
-            out.append(viol("C06/fit-rotation", f"{tag}: fit reported a rotation {math.degrees(e3):.2f} deg from q_k"))
+            out.append(viol("C06/fit-rotation" if T == 1 else "C06/fit-rotation:multi-template",
+                            f"{tag}: fit reported a rotation {math.degrees(e3):.2f} deg from q_k"))
+        elif T > 1:
+            if not float(np.abs(np.asarray(rf.shift) - disp).max()) <= stol or not abs(float(rf.score) - float(res.score)) <= 2e-3 * max(1.0, abs(float(res.score))):
+                out.append(viol("C06/fit-differs-from-align:multi-template", f"{tag}: fit returned shift {np.round(rf.shift, 3).tolist()} score {float(rf.score):.5g}, "
+                                f"align shift {np.round(res.shift, 3).tolist()} score {float(res.score):.5g}"))
         elif float(np.abs(np.asarray(rf.shift) - disp).max()) <= 0.15 and mask is None:
             cc = np.corrcoef(fitted.ravel(), templates[0].ravel())[0, 1]
             if not cc >= 0.97:
